@@ -57,10 +57,27 @@ func init() {
 
 const c07PerCase = 400
 
+// allocNow returns heap bytes allocated so far plus the stack memory in use (a
+// library that recurses per message grows the stack, not the heap).
 func allocNow() uint64 {
 	var m runtime.MemStats
 	runtime.ReadMemStats(&m)
+	lastStack = m.StackInuse
 	return m.TotalAlloc
+}
+
+// lastStack is the stack memory in use at the last allocNow call.
+var lastStack uint64
+
+// usedSince returns heap bytes allocated since before plus the growth of stack
+// memory in use (never negative).
+func usedSince(before, stackBefore uint64) uint64 {
+	now := allocNow()
+	used := now - before
+	if lastStack > stackBefore {
+		used += lastStack - stackBefore
+	}
+	return used
 }
 
 // DriveFrames feeds data to a Conn chosen by cfg and reads it with a program
@@ -93,10 +110,13 @@ func DriveFrames(cfg byte, data []byte, checkAlloc bool) (sig, what string, nont
 	}
 	nc := xport.New(chunks)
 	nc.NoLog = true
-	var before uint64
+	var before, stackBefore uint64
 	if checkAlloc {
 		before = allocNow()
+		stackBefore = lastStack
 	}
+	nMsgs := 0
+	joinMode := false
 	c := ws.VerifNewConn(nc, server, rb, 256, nil, nil, comp)
 	if cfg&0x20 != 0 && mode == 3 {
 		c.SetReadLimit(1 << 16)
@@ -104,19 +124,40 @@ func DriveFrames(cfg byte, data []byte, checkAlloc bool) (sig, what string, nont
 	delivered := 0
 	const cap = 4 << 20
 	buf := make([]byte, 4096)
-	for i := 0; i < len(data)+16; i++ {
+	if mode == 3 && cfg&0x20 == 0 {
+		// JoinMessages with the (legal) empty terminator
+		joinMode = true
+		jr := ws.JoinMessages(c, "")
+		for delivered < cap {
+			n, e := jr.Read(buf)
+			delivered += n
+			nontrivial = nontrivial || n > 0
+			if e != nil {
+				break
+			}
+		}
+		mode = -1
+	}
+	for i := 0; mode >= 0 && i < len(data)+16; i++ {
 		var err error
 		switch mode {
 		case 0:
-			var p []byte
-			_, p, err = c.ReadMessage()
-			delivered += len(p)
-			nontrivial = nontrivial || err == nil
+			// a failed message read does not end the connection: the application may
+			// go on to the next message (NextReader decides)
+			var r io.Reader
+			_, r, err = c.NextReader()
+			if err == nil {
+				nontrivial = true
+				nMsgs++
+				p, _ := io.ReadAll(io.LimitReader(r, cap))
+				delivered += len(p)
+			}
 		case 1, 3:
 			var r io.Reader
 			_, r, err = c.NextReader()
 			if err == nil {
 				nontrivial = true
+				nMsgs++
 				for delivered < cap {
 					n, e := r.Read(buf)
 					delivered += n
@@ -128,6 +169,7 @@ func DriveFrames(cfg byte, data []byte, checkAlloc bool) (sig, what string, nont
 		default:
 			var v interface{}
 			err = c.ReadJSON(&v)
+			nMsgs++
 			if err != nil {
 				// ReadJSON fails on non-JSON payloads without the connection failing:
 				// find out with NextReader
@@ -145,10 +187,24 @@ func DriveFrames(cfg byte, data []byte, checkAlloc bool) (sig, what string, nont
 		return "C07:frames-read-loop", fmt.Sprintf("%d transport reads after the input was exhausted", nc.ReadsAfterEnd), nontrivial
 	}
 	if checkAlloc && !(mode == 2 && comp) { // ReadJSON hides how much was inflated; judged in the other modes
-		used := allocNow() - before
-		bound := uint64(1<<20) + 16*uint64(len(data)+delivered+len(nc.Written()))
+		used := usedSince(before, stackBefore)
+		// what the application-facing helpers legitimately cost per message: io.ReadAll starts
+		// with a 512-byte buffer, a json.Decoder with a few KiB, a streamed read with ~16 bytes
+		perMsg := uint64(64)
+		switch {
+		case joinMode:
+			perMsg = 0
+		case mode == 0:
+			perMsg = 1024
+		case mode == 2:
+			perMsg = 8192
+		}
+		bound := uint64(1<<20) + 16*uint64(len(data)+delivered+len(nc.Written())) + perMsg*uint64(nMsgs)
+		if joinMode {
+			bound += 32 * uint64(len(data)) // at most len/2 messages at 64 bytes each
+		}
 		if used > bound {
-			return "C07:frames-allocation", fmt.Sprintf("%d bytes allocated for %d bytes received and %d delivered (bound %d)", used, len(data), delivered, bound), nontrivial
+			return "C07:frames-allocation", fmt.Sprintf("%d bytes of heap+stack used for %d bytes received, %d delivered, %d messages (bound %d)", used, len(data), delivered, nMsgs, bound), nontrivial
 		}
 	}
 	return "", "", nontrivial
@@ -156,9 +212,10 @@ func DriveFrames(cfg byte, data []byte, checkAlloc bool) (sig, what string, nont
 
 // DriveDialReply presents data as the server's reply to Dial.
 func DriveDialReply(cfg byte, data []byte, checkAlloc bool) (sig, what string, nontrivial bool) {
-	var before uint64
+	var before, stackBefore uint64
 	if checkAlloc {
 		before = allocNow()
+		stackBefore = lastStack
 	}
 	d := &ws.Dialer{EnableCompression: cfg&1 != 0, ReadBufferSize: []int{0, 1, 300}[int(cfg>>1)%3]}
 	if cfg&8 != 0 {
@@ -184,7 +241,7 @@ func DriveDialReply(cfg byte, data []byte, checkAlloc bool) (sig, what string, n
 		return "C07:dial-read-loop", fmt.Sprintf("%d transport reads after the reply was exhausted", nc.ReadsAfterEnd), nontrivial
 	}
 	if checkAlloc {
-		used := allocNow() - before
+		used := usedSince(before, stackBefore)
 		if bound := uint64(1<<20) + 32*uint64(len(data)); used > bound {
 			return "C07:dial-allocation", fmt.Sprintf("%d bytes allocated for a %d-byte reply (bound %d)", used, len(data), bound), nontrivial
 		}
@@ -194,9 +251,10 @@ func DriveDialReply(cfg byte, data []byte, checkAlloc bool) (sig, what string, n
 
 // DriveProxyReply presents data as an HTTP proxy's reply to CONNECT.
 func DriveProxyReply(cfg byte, data []byte, checkAlloc bool) (sig, what string, nontrivial bool) {
-	var before uint64
+	var before, stackBefore uint64
 	if checkAlloc {
 		before = allocNow()
+		stackBefore = lastStack
 	}
 	nc := xport.New(nil)
 	heads := 0
@@ -226,7 +284,7 @@ func DriveProxyReply(cfg byte, data []byte, checkAlloc bool) (sig, what string, 
 		return "C07:proxy-read-loop", fmt.Sprintf("%d transport reads after the reply was exhausted", nc.ReadsAfterEnd), nontrivial
 	}
 	if checkAlloc {
-		used := allocNow() - before
+		used := usedSince(before, stackBefore)
 		if bound := uint64(1<<20) + 32*uint64(len(data)); used > bound {
 			return "C07:proxy-allocation", fmt.Sprintf("%d bytes allocated for a %d-byte proxy reply (bound %d)", used, len(data), bound), nontrivial
 		}
@@ -239,9 +297,10 @@ var c07HeaderNames = []string{"Connection", "Upgrade", "Sec-Websocket-Version", 
 // DriveHeaders puts value into header number which of an otherwise valid
 // upgrade request and runs the server-side entry points.
 func DriveHeaders(which byte, value string, second string, checkAlloc bool) (sig, what string, nontrivial bool) {
-	var before uint64
+	var before, stackBefore uint64
 	if checkAlloc {
 		before = allocNow()
+		stackBefore = lastStack
 	}
 	req := validRequest(someKey)
 	name := c07HeaderNames[int(which)%len(c07HeaderNames)]
@@ -264,7 +323,7 @@ func DriveHeaders(which byte, value string, second string, checkAlloc bool) (sig
 	}
 	nontrivial = c != nil
 	if checkAlloc {
-		used := allocNow() - before
+		used := usedSince(before, stackBefore)
 		if bound := uint64(1<<20) + 64*uint64(len(value)+len(second)); used > bound {
 			return "C07:upgrade-allocation", fmt.Sprintf("%d bytes allocated for a %d-byte header value (bound %d)", used, len(value), bound), nontrivial
 		}
@@ -384,6 +443,16 @@ func genFrameInput(r *gen.R) []byte {
 			cut = r.Intn(len(st.Bytes) + 1)
 		}
 		return append(append([]byte(nil), st.Bytes[:cut]...), wire.Append(nil, f)...)
+	case 5:
+		// a long unbroken run of empty messages
+		n := r.Range(200, 30000)
+		one := wire.Append(nil, wire.Frame{Fin: true, Op: 1 + r.Intn(2), Masked: fromClient})
+		return bytes.Repeat(one, n)
+	case 6:
+		// many compressed messages whose DEFLATE data is invalid (the connection itself stays healthy)
+		n := r.Range(20, 400)
+		one := wire.Append(nil, wire.Frame{Fin: true, Rsv1: true, Op: 2, Masked: fromClient, Payload: []byte{0xff, 0xfe, 0xfd, 0x07, 0x99}})
+		return bytes.Repeat(one, n)
 	case 3:
 		// compressed garbage / deflate bombs
 		p := bytes.Repeat([]byte{0}, r.Range(1, 2000))
